@@ -292,7 +292,45 @@ fn finding_check(p: &Prepared, fi: usize, ni: usize, idx: &[usize], cut: Option<
     }
 }
 
+/// Histories before the tag: an element matched only by a text / comment handler (no element
+/// handler runs for it), then the tag that is read. (prefix, suffix, namespace of the tag)
+const HISTORIES: &[(&str, &str, Ns)] = &[
+    ("<p>t</p>", "", Ns::Html),
+    ("<p><!--c--></p>", "", Ns::Html),
+    ("<p>t", "</p>", Ns::Html),
+    ("<svg><text>t</text>", "</svg>", Ns::Svg),
+    ("<p>t</p><svg>", "</svg>", Ns::Svg),
+    ("<p>t</p><math>", "</math>", Ns::MathMl),
+];
+
+fn history_cfg() -> Cfg {
+    let quiet = |h: HSpec| HSpec { log: false, ..h };
+    Cfg::with(vec![
+        quiet(HSpec::obs(HKind::Text, "p, text")),
+        quiet(HSpec::obs(HKind::Comments, "p")),
+        HSpec::with_ops(HKind::Element, ":not(p):not(text):not(svg):not(math)", lookup_ops(encoding_rs::UTF_8)),
+    ])
+    .strict(false)
+}
+
+fn history_doc(hi: usize, ti: usize, idx: &[usize]) -> (Vec<u8>, usize, usize, Ns) {
+    let mut tag = format!("<{}", NAMES[ti]);
+    for &i in idx {
+        tag.push_str(PIECES[i]);
+    }
+    tag.push('>');
+    let (pre, post, ns) = HISTORIES[hi];
+    let doc = format!("{pre}{tag}x{post}");
+    (doc.into_bytes(), pre.len(), tag.len(), ns)
+}
+
 pub fn replay(case: &Value) -> Option<String> {
+    if case["kind"].as_str() == Some("history") {
+        let idx: Vec<usize> = serde_json::from_value(case["pieces"].clone()).ok()?;
+        let (doc, start, len, ns) = history_doc(case["history"].as_u64()? as usize, case["name"].as_u64()? as usize, &idx);
+        let p = Prepared::new(history_cfg()).ok()?;
+        return check_read(&p, &doc, start, len, ns, case["cut"].as_u64().map(|c| c as usize)).0;
+    }
     if case["kind"].as_str() == Some("ipfind") {
         let idx: Vec<usize> = serde_json::from_value(case["pieces"].clone()).ok()?;
         let p = Prepared::new(base_cfg("UTF-8", lookup_ops(encoding_rs::UTF_8))).ok()?;
@@ -412,6 +450,44 @@ pub fn run_check(ctx: &Ctx) -> i32 {
     });
     if !ctx.capped.load(std::sync::atomic::Ordering::Relaxed) {
         ctx.level_done(&format!("5 tag names x pieces<={max} (and {} further names: every void element, case variants, near misses, ordinary names x pieces<=2) x 8 contexts x 3 encodings x every cut inside the tag; 9 edits + re-read up to pieces<={}", NAMES.len() - DEEP_NAMES, if max > 3 { max - 1 } else { max }));
+    }
+    // histories: the element before the tag was matched by a text / comment handler only
+    {
+        let hp = Prepared::new(history_cfg()).unwrap();
+        let nseq = crate::alpha::count_upto(PIECES.len(), 2);
+        par_for(nseq * NAMES.len(), 8, |j| {
+            if ctx.over_time() {
+                return;
+            }
+            let ti = j % NAMES.len();
+            let mut idx = vec![];
+            crate::alpha::seq_at(j / NAMES.len(), PIECES.len(), &mut idx);
+            if ["p", "text", "svg", "math"].contains(&NAMES[ti].to_ascii_lowercase().as_str()) {
+                return; // the element handler's selector excludes them
+            }
+            for hi in 0..HISTORIES.len() {
+                if HISTORIES[hi].2 != Ns::Html && crate::docgen::BREAKOUT.contains(&NAMES[ti].to_ascii_lowercase().as_str()) {
+                    continue;
+                }
+                let (doc, start, len, ns) = history_doc(hi, ti, &idx);
+                if expectation(&doc[start..start + len], ns, encoding_rs::UTF_8).is_none() {
+                    continue;
+                }
+                for cut in [None, Some(start), Some(start + 1)] {
+                    let (m, calls, _) = check_read(&hp, &doc, start, len, ns, cut);
+                    ctx.exec(calls);
+                    ctx.validated(1);
+                    if let Some(msg) = m {
+                        let case = json!({"kind": "history", "history": hi, "name": ti, "pieces": idx, "cut": cut, "doc_lossy": lossy(&doc)});
+                        let c2 = case.clone();
+                        ctx.violation(msg, case, &|| replay(&c2));
+                    }
+                }
+            }
+        });
+        if !ctx.capped.load(std::sync::atomic::Ordering::Relaxed) {
+            ctx.level_done(&format!("{} names x pieces<=2 x {} histories (the previous element matched by a text / comment handler only) x 3 schedules: read API of the tag", NAMES.len(), HISTORIES.len()));
+        }
     }
     // edit scripts: every sequence of 2 and 3 edits from a 6-edit menu on every tag <= 3 pieces
     // (emptying the attribute list and editing again, overwriting, renaming in between), one re-read
